@@ -58,6 +58,8 @@ pub enum Expr {
     Real(String),
     Bool(bool),
     Str(String),
+    /// a string literal written with its line breaks and tabs as themselves (only " and \ escaped)
+    RawStr(String),
     Char(char),
     Quote(Datum),
     VecLit(Vec<Datum>),
@@ -289,6 +291,7 @@ pub fn expr_tokens(e: &Expr, out: &mut Vec<Tok>, m: u8) {
         Expr::Real(s) => t(out, s, m),
         Expr::Bool(b) => t(out, if *b { "#t" } else { "#f" }, m),
         Expr::Str(s) => t(out, &str_literal(s), m),
+        Expr::RawStr(s) => t(out, &format!("\"{}\"", s.replace('\\', "\\\\").replace('"', "\\\"")), m),
         Expr::Char(c) => t(out, &format!("#\\{}", c), m),
         Expr::Quote(d) => {
             t(out, "'", m);
